@@ -255,6 +255,8 @@ class Models:
 
     def b_set(self, v=None):
         ex = self.ex
+        if isinstance(v, Sym) and isinstance(v.kind, K.SetOf):
+            return ex.run.alloc(HSet(sym=v))
         r = ex.run.alloc(HSet(items=[]))
         if v is not None:
             P.set_update(ex, r, v)
@@ -554,6 +556,8 @@ class Models:
 
     def set_method(self, ref, name):
         ex = self.ex
+        if name == 'copy':
+            return Builtin('set.copy', lambda ex_, a, k: ex.run.alloc(ex.run.cell(ref).copy()))
         if name == 'add':
             return Builtin('set.add', lambda ex_, a, k: P.set_add(ex, ref, a[0]))
         if name == 'update':
@@ -719,6 +723,26 @@ class Models:
                 ex.run.trace.append(Event('savefig', None, [v, a[0]], 'ret'))
                 fsmodel.write_in_place(ex, 'savefig', a[0], P.ufn('fig_bytes', [v.t.sort()], z3.IntSort())(v.t))
             return Builtin('savefig', savefig)
+        # attributes of opaque objects declared by the contract module: U_ATTRS = {kind name: {attr: Kind}} (functions of the object)
+        c = ex.contracts.current if ex.contracts else None
+        mods = [c.module.py] if c is not None else [cm.py for cm in (ex.contracts.modules.values() if ex.contracts else [])]
+        for mod in mods:
+            spec = getattr(mod, 'U_ATTRS', {}).get(v.kind.name, {})
+            if name in spec:
+                kd = spec[name]
+                if isinstance(kd, tuple):       # (Kind, 'event'): reading the attribute is an observable request (e.g. task.value)
+                    kd = kd[0]
+                    ex.run.trace.append(Event(name, None, [v], 'ret'))
+                return Sym(kd, P.ufn(f'{v.kind.name}_{name}', [v.kind.sort()], kd.sort())(v.t))
+            mspec = getattr(mod, 'U_METHODS', {}).get(v.kind.name, {})
+            if name in mspec:
+                kd = mspec[name]
+
+                def call(ex_, a, k, kd=kd, name=name):
+                    ret = ex_.run.fresh(kd, f'{v.kind.name}.{name}') if kd is not None else None
+                    ex_.run.trace.append(Event(name, None, [v] + list(a) + list(k.values()), 'ret', ret))
+                    return ret
+                return Builtin(f'{v.kind.name}.{name}', call)
         raise OutOfSubset(f'attribute {name} of opaque value {v.kind.name}')
 
     # ------------------------------------------------------------------ serialisation libraries (A-json, A-np, A-pd, A-pickle, A-yaml)
@@ -933,13 +957,61 @@ class Models:
     def _kind_by_name(self, n):
         if isinstance(n, K.Kind):
             return n
-        return {'Str': K.Str, 'Int': K.Int, 'Bool': K.Bool, 'Dyn': K.Dyn, 'Val': K.U('Val', plain=True), 'Path': K.Path}[n]
+        table = {'Str': K.Str, 'Int': K.Int, 'Bool': K.Bool, 'Dyn': K.Dyn, 'Val': K.U('Val', plain=True), 'Path': K.Path}
+        return table[n] if n in table else K.U(n)
 
     def x_pyvc_prims_empty_map(self):
         return Builtin('prims.empty_map', lambda ex_, a, k: P.empty_map(ex_, K.Map(self._kind_by_name(a[0]), self._kind_by_name(a[1]))))
 
     def x_pyvc_prims_empty_seq(self):
         return Builtin('prims.empty_seq', lambda ex_, a, k: Sym(K.Seq(self._kind_by_name(a[0])), z3.Empty(K.Seq(self._kind_by_name(a[0])).sort())))
+
+    def _set_sym(self, ex_, v):
+        if isinstance(v, Sym) and isinstance(v.kind, K.SetOf):
+            return v
+        if isinstance(v, Ref):
+            c = ex_.run.cell(v)
+            if isinstance(c, HSet) and c.sym is not None:
+                return c.sym
+        raise OutOfSubset(f'symbolic set expected, got {v!r}')
+
+    def _nx_set(self, ex_, name, graph, node):
+        ex_.run.assumed.add('A-nx')
+        k = K.SetOf(node.kind)
+        return Sym(k, P.ufn(f'nx_{name}_{node.kind.name}', [graph.t.sort(), node.t.sort()], k.sort())(graph.t, node.t))
+
+    def x_pyvc_prims_nx_desc(self):
+        return Builtin('prims.nx_desc', lambda ex_, a, k: self._nx_set(ex_, 'desc', a[0], a[1]))
+
+    def x_pyvc_prims_nx_anc(self):
+        return Builtin('prims.nx_anc', lambda ex_, a, k: self._nx_set(ex_, 'anc', a[0], a[1]))
+
+    def x_pyvc_prims_nx_has_path(self):
+        def f(ex_, a, k):
+            ex_.run.assumed.add('A-nx')
+            return Sym(K.Bool, P.ufn(f'nx_has_path_{a[1].kind.name}', [a[0].t.sort(), a[1].t.sort(), a[2].t.sort()], z3.BoolSort())(a[0].t, a[1].t, a[2].t))
+        return Builtin('prims.nx_has_path', f)
+
+    def x_pyvc_prims_set_with(self):
+        def f(ex_, a, k):
+            s_ = self._set_sym(ex_, a[0])
+            return Sym(s_.kind, z3.Store(s_.t, P.lift(ex_, a[1], s_.kind.elem), z3.BoolVal(True)))
+        return Builtin('prims.set_with', f)
+
+    def x_pyvc_prims_set_union(self):
+        def f(ex_, a, k):
+            s1, s2 = self._set_sym(ex_, a[0]), self._set_sym(ex_, a[1])
+            return Sym(s1.kind, z3.SetUnion(s1.t, s2.t))
+        return Builtin('prims.set_union', f)
+
+    def x_pyvc_prims_empty_set(self):
+        def f(ex_, a, k):
+            kd = K.SetOf(self._kind_by_name(a[0]))
+            return Sym(kd, z3.K(kd.elem.sort(), z3.BoolVal(False)))
+        return Builtin('prims.empty_set', f)
+
+    def x_networkx(self):
+        return NxModule(self)
 
     def x_pyvc_prims_same_map(self):
         def f(ex_, a, k):
@@ -1179,6 +1251,24 @@ class PltModule(ExtObj):
         ex.run.trace.append(Event('plt.close', None, [fig], 'ret'))
 
 
+class NxModule(ExtObj):
+    """networkx (A-nx): descendants / ancestors / has_path are uninterpreted functions of (graph, node): the
+    mathematical notions; graph construction is not modelled here (Chain._build_graph has its own contract)"""
+
+    def __init__(self, models):
+        self.models = models
+
+    def m_descendants(self, ex, graph, node):
+        return ex.run.alloc(HSet(sym=self.models._nx_set(ex, 'desc', graph, node)))
+
+    def m_ancestors(self, ex, graph, node):
+        return ex.run.alloc(HSet(sym=self.models._nx_set(ex, 'anc', graph, node)))
+
+    def m_has_path(self, ex, graph, a, b):
+        ex.run.assumed.add('A-nx')
+        return Sym(K.Bool, P.ufn(f'nx_has_path_{a.kind.name}', [graph.t.sort(), a.t.sort(), b.t.sort()], z3.BoolSort())(graph.t, a.t, b.t))
+
+
 class LockObj(ExtObj):
     def enter(self, ex):
         ex.run.trace.append(Event('lock.acquire', None, [], 'ret'))
@@ -1416,6 +1506,14 @@ def isinstance_(ex, v, t):
         if k == K.Dyn:
             return dyn_isinstance(ex, v, t)
         if isinstance(k, K.U):
+            declared = None
+            for cm in (ex.contracts.modules.values() if ex.contracts else []):
+                declared = declared or getattr(cm.py, 'U_CLASSES', {}).get(k.name)
+            if declared is not None:
+                dc = ex.table.cls(declared)
+                if isinstance(ci, tuple):
+                    return dc.is_subclass_of(ci) or tname == 'object'
+                return dc.is_subclass_of(ci)
             if k.plain and not isinstance(ci, tuple):
                 return False
             return Sym(K.Bool, P.ufn(f'isinstance_{k.name}', [k.sort(), z3.StringSort()], z3.BoolSort())(v.t, z3.StringVal(str(tname or ci.key))))
